@@ -96,6 +96,14 @@ def gen_scenario(r_, size, via=None, alias=None, tops=None, cross=False):
                 marked = None
     else:
         marked = None
+    # a listed directory below lib whose only listed content goes away in a replace while the new package keeps
+    # the directory itself, naming it through the other side of lib -> lib64: it ends up empty and must stay
+    keepdir = None
+    if cross and r_.random() < 0.6 and all(not e["path"].startswith("lib/keep.d") for e in oldp):
+        keepdir = dict(path="lib/keep.d", type="dir", content="", target="", grp=0, src="local", **m18._attrs(r_, m18.MODES_D))
+        oldp.append(keepdir)
+        oldp.append(dict(path="lib/keep.d/old", type="file", content="pkg-k", target="", grp=0, src="local",
+                         **m18._attrs(r_, m18.MODES_F)))
     live, taken = [], {}
     want = r_.random() < 0.5 if alias is None else alias
     alias = "lib64" if want and any(e["path"] == "lib" for e in oldp) else None
@@ -179,6 +187,13 @@ def gen_scenario(r_, size, via=None, alias=None, tops=None, cross=False):
             x = r_.random()
             if e is marked:
                 newp.append(dict(e, content="new-" + e["content"], path="lib64" + e["path"][3:]))
+                continue
+            if keepdir is not None and e["path"].startswith("lib/keep.d/"):
+                continue
+            if e is keepdir:
+                np_ = (alias or "lib") + e["path"][3:]
+                if taken.get(phys(np_)) in (None, "dir"):
+                    newp.append(dict(e, path=np_))
                 continue
             if x < 0.5 and taken.get(phys(e["path"])) == ("dir" if e["type"] == "dir" else taken.get(phys(e["path"]))):
                 ne = dict(e)
